@@ -2,7 +2,10 @@
    Statements only; proofs live in Proofs/.  *)
 Require Import Cirbo.Model.Base Cirbo.Model.Gate Cirbo.Model.Circuit Cirbo.Model.Eval Cirbo.Model.Sem.
 Require Import Cirbo.Generated.GateTypes.
+Require Import Cirbo.Model.WF.
 Require Import Cirbo.Proofs.OpFacts Cirbo.Proofs.SemFacts Cirbo.Proofs.EvalFacts.
+Require Import Cirbo.Proofs.EvalComplete Cirbo.Proofs.EvalStack Cirbo.Proofs.EvalEntry
+        Cirbo.Proofs.EvalMono Cirbo.Proofs.WFSound.
 
 (* every generated three-valued operator is monotone in the information order U <= v *)
 Theorem C15_operator_monotone : forall g vs vs' v,
@@ -51,4 +54,113 @@ Proof.
   - intros l [<-|[<-|[]]]; eexists; split; reflexivity.
   - intros l. unfold dmem; simpl. destruct (leqb l "a") eqn:E; [|discriminate].
     apply leqb_eq in E; subst; simpl; auto.
+Qed.
+
+(* ------------------------------------------------------------------------------------ *)
+(* The same three facts at the level of the evaluators (well-formed circuits with accepted
+   arities; assignments whose keys are inputs).  a' has at least the information of a. *)
+
+(* the evaluators are total on such circuits, for every partial assignment *)
+Theorem C15_full_evaluation_total : forall c a, WF c -> arity_ok c -> assigns_inputs_only c a ->
+  exists d, evaluate_full_circuit c a = Ok d /\
+            forall l, has_gate c l = true -> exists v, dget d l = Some v /\ Eval c a l v.
+Proof. exact evaluate_full_circuit_complete. Qed.
+
+Theorem C15_stack_evaluation_total : forall c a outs, WF c -> arity_ok c -> assigns_inputs_only c a ->
+  (forall o, In o (requested c outs) -> has_gate c o = true) ->
+  exists d, evaluate_circuit c a outs = Ok d.
+Proof. exact evaluate_circuit_total. Qed.
+
+(* evaluate_full_circuit: every reported value is refined under a'; a True/False is reported
+   identically under a' *)
+Theorem C15_full_evaluation_monotone : forall c a a' d d',
+  WF c -> arity_ok c -> assigns_inputs_only c a -> assigns_inputs_only c a' -> assign_le a a' ->
+  evaluate_full_circuit c a = Ok d -> evaluate_full_circuit c a' = Ok d' ->
+  forall l v, dget d l = Some v -> exists v', dget d' l = Some v' /\ st_le v v'.
+Proof. exact evaluate_full_circuit_mono. Qed.
+
+Theorem C15_full_evaluation_defined_stable : forall c a a' d d',
+  WF c -> arity_ok c -> assigns_inputs_only c a -> assigns_inputs_only c a' -> assign_le a a' ->
+  evaluate_full_circuit c a = Ok d -> evaluate_full_circuit c a' = Ok d' ->
+  forall l v, dget d l = Some v -> v <> U -> dget d' l = Some v.
+Proof. exact evaluate_full_circuit_defined_stable. Qed.
+
+(* evaluate_circuit (any fuel, any requested outputs; no arity hypothesis needed when both
+   runs return) *)
+Theorem C15_stack_evaluation_monotone : forall fuel c a a' outs d d',
+  WF c -> assigns_inputs_only c a -> assigns_inputs_only c a' -> assign_le a a' ->
+  evaluate_circuit_fuel fuel c a outs = Ok d -> evaluate_circuit_fuel fuel c a' outs = Ok d' ->
+  forall l v, dget d l = Some v -> exists v', dget d' l = Some v' /\ st_le v v'.
+Proof. exact evaluate_circuit_fuel_mono. Qed.
+
+Theorem C15_stack_evaluation_defined_stable : forall c a a' outs d d',
+  WF c -> assigns_inputs_only c a -> assigns_inputs_only c a' -> assign_le a a' ->
+  evaluate_circuit c a outs = Ok d -> evaluate_circuit c a' outs = Ok d' ->
+  forall l v, dget d l = Some v -> v <> U -> dget d' l = Some v.
+Proof. exact evaluate_circuit_defined_stable. Qed.
+
+(* evaluate_circuit_outputs *)
+Theorem C15_outputs_evaluation_monotone : forall c a a' r r',
+  WF c -> arity_ok c -> assigns_inputs_only c a -> assigns_inputs_only c a' -> assign_le a a' ->
+  evaluate_circuit_outputs c a = Ok r -> evaluate_circuit_outputs c a' = Ok r' ->
+  forall l v, dget r l = Some v -> exists v', dget r' l = Some v' /\ st_le v v'.
+Proof. exact evaluate_circuit_outputs_mono. Qed.
+
+Theorem C15_outputs_evaluation_defined_stable : forall c a a' r r',
+  WF c -> arity_ok c -> assigns_inputs_only c a -> assigns_inputs_only c a' -> assign_le a a' ->
+  evaluate_circuit_outputs c a = Ok r -> evaluate_circuit_outputs c a' = Ok r' ->
+  forall l v, dget r l = Some v -> v <> U -> dget r' l = Some v.
+Proof. exact evaluate_circuit_outputs_defined_stable. Qed.
+
+(* a total assignment: no Undefined at any gate (whole circuit), at any requested output (stack
+   evaluator: gates it did not evaluate are reported Undefined by design), at any output *)
+Theorem C15_full_evaluation_total_defined : forall c a d,
+  WF c -> assigns_inputs_only c a -> total_on c a ->
+  evaluate_full_circuit c a = Ok d -> forall l v, dget d l = Some v -> v <> U.
+Proof. exact evaluate_full_circuit_total_defined. Qed.
+
+Theorem C15_stack_evaluation_total_defined : forall fuel c a outs d,
+  WF c -> assigns_inputs_only c a -> total_on c a ->
+  evaluate_circuit_fuel fuel c a outs = Ok d ->
+  forall o, In o (requested c outs) -> exists v, dget d o = Some v /\ v <> U.
+Proof. exact evaluate_circuit_total_defined. Qed.
+
+Theorem C15_outputs_evaluation_total_defined : forall c a r,
+  WF c -> assigns_inputs_only c a -> total_on c a ->
+  evaluate_circuit_outputs c a = Ok r -> forall l v, dget r l = Some v -> v <> U.
+Proof. exact evaluate_circuit_outputs_total_defined. Qed.
+
+(* evaluate on a Boolean vector returns Booleans *)
+Theorem C15_evaluate_boolean : forall c bs, WF c -> arity_ok c -> length (inputs c) <= length bs ->
+  exists rs, evaluate c (map inj bs) = Ok (map inj rs) /\
+             Forall2 (fun o b => Eval c (vec_assignment c (map inj bs)) o (inj b)) (outputs c) rs.
+Proof. exact evaluate_bool. Qed.
+
+(* non-vacuity: a well-formed circuit, a partial assignment a below a total a'; OR is already
+   True under a (and stays True), XOR is Undefined under a and becomes defined under a' *)
+Definition C15_ex : circuit :=
+  mkCircuit ["a"; "b"] ["o"; "x"]
+    [("a", mkGate INPUT []); ("b", mkGate INPUT []); ("o", mkGate OR ["a"; "b"]); ("x", mkGate XOR ["a"; "b"])]
+    [("a", ["o"; "x"]); ("b", ["o"; "x"])] [].
+
+Example C15_ex_ok :
+  WF C15_ex /\ arity_ok C15_ex
+  /\ assigns_inputs_only C15_ex [("a", T)] /\ assigns_inputs_only C15_ex [("a", T); ("b", F)]
+  /\ assign_le [("a", T)] [("a", T); ("b", F)] /\ total_on C15_ex [("a", T); ("b", F)]
+  /\ evaluate_full_circuit C15_ex [("a", T)] = Ok [("a", T); ("b", U); ("x", U); ("o", T)]
+  /\ evaluate_full_circuit C15_ex [("a", T); ("b", F)] = Ok [("a", T); ("b", F); ("x", T); ("o", T)]
+  /\ evaluate_circuit C15_ex [("a", T)] (Some ["o"]) = Ok [("a", T); ("b", U); ("o", T); ("x", U)].
+Proof.
+  split; [apply wfb_sound; vm_compute; reflexivity|].
+  split; [apply arity_okb_sound; vm_compute; reflexivity|].
+  split; [intros l; unfold dmem; simpl; destruct (leqb_spec l "a") as [->|_]; [simpl; auto|discriminate]|].
+  split; [intros l; unfold dmem; simpl; destruct (leqb_spec l "a") as [->|_]; [simpl; auto|];
+          destruct (leqb_spec l "b") as [->|_]; [simpl; auto|discriminate]|].
+  split; [intros l; unfold aval; simpl; destruct (leqb l "a"); [right; reflexivity|];
+          destruct (leqb l "b"); [left; reflexivity|right; reflexivity]|].
+  split; [|repeat split; vm_compute; reflexivity].
+  intros l g Hg Ht. unfold aval. simpl in *.
+  destruct (leqb l "a"); [discriminate|]. destruct (leqb l "b"); [discriminate|].
+  destruct (leqb l "o"); [injection Hg as <-; discriminate|].
+  destruct (leqb l "x"); [injection Hg as <-; discriminate|discriminate].
 Qed.
